@@ -8,7 +8,8 @@ EXTENDS Circuit, TLC
 CONSTANTS QN, Depth, WithU
 VARIABLES obs, ops       \* ops: the public calls that produced `gates` (what the harness replays)
 vars == <<gates, obs, ops>>
-Sh(op, mat, ctrl, tg) == [op |-> op, mat |-> mat, par |-> <<>>, ctrl |-> ctrl, tg |-> tg]
+\* hold = 0: ordinary gate; hold = j > 0: the parameters are the placeholder entry P[op][j] (re-bound by every setP)
+Sh(op, mat, ctrl, tg) == [op |-> op, mat |-> mat, par |-> <<>>, ctrl |-> ctrl, tg |-> tg, hold |-> 0]
 Q == 1..QN
 T1 == Tuples(QN, 1)
 T2 == Tuples(QN, 2)
@@ -50,9 +51,22 @@ DoAdd == \E s \in {RandomElement(Shapes)} : \E x \in {RandomElement(0..511)} : \
 \* append_gate: re-use an existing Gate object (same matrix) on freshly chosen wires of the same arity
 DoReuse == gates # <<>> /\ \E i \in {RandomElement(1..Len(gates))} :
             \E s \in {RandomElement({x \in Shapes : x.op = gates[i].op /\ x.mat = gates[i].mat /\ Cardinality(x.ctrl) = Cardinality(gates[i].ctrl)})} :
-            LET g == [s EXCEPT !.par = gates[i].par] IN Step(Append(gates, g), [call |-> "reuse", g |-> g, src |-> i, d |-> 0])
-\* extend_circuit with a second circuit object that holds copies of the first k gates
-DoExtend == gates # <<>> /\ \E k \in {RandomElement(1..Len(gates))} : Step(gates \o SubSeq(gates, 1, k), [call |-> "extend", g |-> Sh("", "", {}, <<>>), src |-> k, d |-> 0])
+            LET g == [s EXCEPT !.par = gates[i].par, !.hold = gates[i].hold] IN Step(Append(gates, g), [call |-> "reuse", g |-> g, src |-> i, d |-> 0])
+\* extend_circuit with a second circuit object that holds plain copies (current parameter values) of the first k gates
+DoExtend == gates # <<>> /\ \E k \in {RandomElement(1..Len(gates))} :
+              Step(gates \o [i \in 1..k |-> [gates[i] EXCEPT !.hold = 0]], [call |-> "extend", g |-> Sh("", "", {}, <<>>), src |-> k, d |-> 0])
+\* placeholder parameters: a gate whose parameters are P[op][j]; the library binds them at setP time
+HolderOps == {"rx", "ry", "rz", "u3", "rzz"}
+NHold(op) == Cardinality({gates[i].hold : i \in {k \in 1..Len(gates) : gates[k].op = op /\ gates[k].hold > 0}})
+DoAddHolder == \E s \in {RandomElement({x \in Shapes : x.op \in HolderOps})} : \E x \in {RandomElement(0..511)} :
+                 LET g == [s EXCEPT !.par = SubSeq(<<x % 8, (x \div 8) % 8, x \div 64>>, 1, NPar(s.op)), !.hold = NHold(s.op) + 1]
+                 IN Step(Append(gates, g), [call |-> "addP", g |-> g, src |-> 0, d |-> 0])
+\* setP: a placeholder entry gets a new value; EVERY gate bound to it must follow (also after earlier setP calls)
+Held == {i \in 1..Len(gates) : gates[i].hold > 0}
+DoSetP == Held # {} /\ \E i \in {RandomElement(Held)} : \E x \in {RandomElement(0..511)} :
+            LET newpar == SubSeq(<<x % 8, (x \div 8) % 8, x \div 64>>, 1, NPar(gates[i].op))
+                g2 == [k \in 1..Len(gates) |-> IF gates[k].op = gates[i].op /\ gates[k].hold = gates[i].hold THEN [gates[k] EXCEPT !.par = newpar] ELSE gates[k]]
+            IN Step(g2, [call |-> "setP", g |-> g2[i], src |-> i, d |-> 0])
 DoShift == gates # <<>> /\ NumQ(gates) < QN /\ Step([i \in 1..Len(gates) |-> ShiftG(gates[i], 1)], [call |-> "shift", g |-> Sh("", "", {}, <<>>), src |-> 0, d |-> 1])
 DoShiftBack == gates # <<>> /\ (\A i \in 1..Len(gates) : \A q \in RangeOf(gates[i].tg) \cup gates[i].ctrl : q >= 2)
                /\ Step([i \in 1..Len(gates) |-> ShiftG(gates[i], -1)], [call |-> "shift", g |-> Sh("", "", {}, <<>>), src |-> 0, d |-> -1])
@@ -62,6 +76,8 @@ Next == /\ Len(ops) < Depth
              ELSE IF c = 2 /\ ENABLED DoShiftBack THEN DoShiftBack
              ELSE IF c = 3 /\ gates # <<>> /\ Len(gates) <= Depth THEN DoExtend
              ELSE IF c = 4 /\ gates # <<>> THEN DoReuse
+             ELSE IF c = 5 THEN DoAddHolder
+             ELSE IF c = 6 /\ Held # {} THEN DoSetP
              ELSE DoAdd
 Spec == Init /\ [][Next]_vars
 \* ---- spec self-checks
